@@ -9,6 +9,7 @@ import (
 	"sort"
 	"strconv"
 	"strings"
+	"time"
 
 	"raven/verifh/hist"
 	"raven/verifh/hx"
@@ -420,8 +421,43 @@ func watcher(rep *hx.Report, w *world.World, rng *hx.Rng, steps int) {
 	}
 	var trail []string
 	id := 9400
+	// every run starts with arrivals the session has not been told about when it begins to idle
+	script := []int{0, 7, 2, 7, 3, 7}
 	for i := 0; i < steps && len(rep.Violations) == 0; i++ {
-		switch rng.Intn(7) {
+		kind := rng.Intn(8)
+		if i < len(script) {
+			kind = script[i]
+		}
+		switch kind {
+		case 7:
+			// the session idles for one poll and ends it with DONE: what arrived before the IDLE (not announced yet) is still
+			// announced afterwards, what IDLE announces is applied like any other notice
+			W.N++
+			tag := fmt.Sprintf("t%d", W.N)
+			r := W.Send(tag, tag+" IDLE\r\n")
+			apply(r)
+			if strings.HasPrefix(r.Tagged, "+") {
+				if rng.Bool() {
+					id++
+					// the pipe has no buffer: what the server says while idling has to be read for it to go on
+					got := make(chan world.Resp, 1)
+					go func() {
+						old := W.Wait
+						W.Wait = 700 * time.Millisecond
+						got <- W.ReadResp(tag)
+						W.Wait = old
+					}()
+					w.Deliver("sender@example.org", []string{u}, hist.Msg(id))
+					apply(<-got)
+					trail = append(trail, "IDLE(deliver)DONE")
+				} else {
+					trail = append(trail, "IDLE,DONE")
+				}
+				apply(W.Send(tag, "DONE\r\n"))
+			} else {
+				trail = append(trail, "IDLE:"+r.Status())
+			}
+			rep.Hit("watcher:IDLE")
 		case 0, 1:
 			id++
 			w.Deliver("sender@example.org", []string{u}, hist.Msg(id))
@@ -454,7 +490,8 @@ func watcher(rep *hx.Report, w *world.World, rng *hx.Rng, steps int) {
 			rep.Violate("impl-violation", "client replay (the selected session's own view)", fmt.Sprintf("after %v: %s — a client cannot apply a removal of a message it was never told about", trail, badNotice), []string{"watcher " + strings.Join(trail, ",")})
 			return
 		}
-		if rng.Chance(45) || i == steps-1 {
+		beforeIdle := i+1 < len(script) && script[i+1] == 7 // no update between the arrival and the IDLE
+		if (rng.Chance(45) && !beforeIdle) || i == steps-1 || (i < len(script) && script[i] == 7) {
 			apply(W.Cmd("NOOP"))
 			trail = append(trail, "NOOP")
 			rep.Case(fmt.Sprintf("watcher|%d|%s", i, strings.Join(trail, ",")), true)
